@@ -41,6 +41,12 @@ def specPrinter : Kind → Quantity → String
   | .complex, _ => "print_complex"
   | .timeDomain, _ => "print_sinosoidal"
 
+/-- the number a kind of annotation is about: a time function `A·cos(ωt+φ)` carries the peak
+value as its amplitude; complex annotations are RMS phasors (property C02) -/
+def specPeak : Kind → Bool
+  | .timeDomain => true
+  | _ => false
+
 /-- the arrow of a voltage/current label is drawn reversed iff exactly one of "annotation
 requested in reverse" and "element drawn in reverse" holds -/
 def specArrowReversed (reverse elementReversed : Bool) : Bool := xor reverse elementReversed
